@@ -220,6 +220,9 @@ def decode(input, errors="strict", encoding=None, force=True):
         if (explicit and not force) or encoding is None:  # Take the encoding from the input
             encoding = _encoding
 
+    if not getattr(codecs.lookup(encoding), '_is_text_encoding', True):
+        # (as bytes.decode does: rot13, hex ... are no text encodings)
+        raise LookupError("%r is not a text encoding" % encoding)
     # NEEDS: change in parse.py (str to bytes!)
     (input, consumed) = codecs.getdecoder(encoding)(input, errors)
     return (_fixencoding(input, str(encoding), True), consumed)
@@ -238,6 +241,9 @@ def encode(input, errors="strict", encoding=None):
         input = _fixencoding(input, str(encoding), True)
     if encoding.lower() == "css":  # (codec names are case-insensitive)
         raise ValueError("css not allowed as encoding name")
+    if not getattr(codecs.lookup(encoding), '_is_text_encoding', True):
+        # (as str.encode does: rot13, hex ... are no text encodings)
+        raise LookupError("%r is not a text encoding" % encoding)
     encoder = codecs.getencoder(encoding)
     return (encoder(input, errors)[0], consumed)
 
